@@ -18,7 +18,7 @@ RULE = (
     "e-, e+, nu, nubar) x scheme/NfFF (ZM-VFNS, FFNS/FFN0/FONLL-FFNS/FONLL-FFN0 with NfFF 3-5) x PTO 0-3 x TMC 0-3. "
     "thorough: the sub-lattices listed under 'enumerated' are enumerated completely (one valid and one invalid request "
     "per cell, kinematics derived from the cell), the rest is sampled by Hypothesis; quick: Hypothesis sample. Each cell is "
-    "run with two valid kinematic points in one request (interior, on a node, x=1, large/small Q2; often in different nf regions; one of the four scale-variation switch settings per cell) and with one invalid request (x<=0, x>1, Q2<=0, x "
+    "run with two valid kinematic points in one request (interior, on a node, x=1, large/small Q2; one cell in eight in the corner x <= 1e-6, Q2 up to 1e5 on a grid from 1e-7; often in different nf regions; one of the four scale-variation switch settings per cell) and with one invalid request (x<=0, x>1, Q2<=0, x "
     "below the grid, NaN). Oracle (validity predicate): valid request -> all values and errors finite, or an explicit "
     "rejection (a `raise` of ValueError/NotImplementedError/RuntimeError); never an internal error (KeyError, IndexError, "
     "AttributeError, TypeError, ImportError, ZeroDivisionError, ...), never NaN/inf; invalid request -> always an explicit "
@@ -35,7 +35,7 @@ BUDGET = {"quick": {"examples": 3200, "wall": 420}, "thorough": {"examples": 240
 MANDATORY = {
     t: ["valid", "invalid:x<=0", "invalid:x>1", "invalid:Q2<=0", "invalid:below-grid", "invalid:nan", "tmc:0", "tmc:1", "tmc:2", "tmc:3",
         "scheme:ZM-VFNS", "scheme:FFNS", "scheme:FFN0", "scheme:FONLL-FFNS", "scheme:FONLL-FFN0", "xs", "heavylight", "outcome:finite",
-        "outcome:rejected", "scale-variations-on", "run-spans-several-nf"]
+        "outcome:rejected", "scale-variations-on", "run-spans-several-nf", "small-x-high-Q2-corner"]
     for t in ("quick", "thorough")
 }
 SHRINK = {"quick": False, "thorough": False}
@@ -44,6 +44,10 @@ HEAVYNESS8 = ["total", "light", "charm", "bottom", "top", "charmlight", "bottoml
 PROC = [("EM", "electron"), ("EM", "positron")] + [(p, l) for p in ("NC", "CC") for l in cards.PROJECTILES]
 SCHEMES13 = [("ZM-VFNS", 4)] + [(s, n) for s in cards.SCHEMES[1:] for n in (3, 4, 5)]
 GRID = [1e-4, 1e-3, 1e-2, 0.1, 0.4, 1.0]
+# the small-x / high-Q2 corner (where the massive library leaves its reliable range and the runner has to scrub its output): one cell
+# in eight is run there, on a grid that reaches it
+DEEP = [1e-7, 1e-6, 1e-5, 1e-3, 0.1, 1.0]
+CORNER = [{"x": 1e-6, "Q2": 1e5}, {"x": 3e-7, "Q2": 2e4}, {"x": 1e-6, "Q2": 30.0}, {"x": 2e-7, "Q2": 1e5}]
 INVALID = ["x<=0", "x>1", "Q2<=0", "below-grid", "nan"]
 
 
@@ -56,7 +60,10 @@ def cell_case(kind, hv, proc, sch, pto, tmc, salt=0):
     inv = INVALID[(h // 4096) % 5]
     # scale-variation switches are not a documented axis of the product: they ride along, derived from the cell hash
     sv = [[False, False], [True, True], [False, True], [True, False]][(h // 11) % 4]
-    return {"cell": [kind, hv, list(proc), list(sch), pto, tmc], "valid": valid, "invalid": inv, "inv_value": (h // 20480) % 3, "y": [0.2, 0.5, 1.0][(h // 7) % 3], "sv": sv}
+    deep = (h // 13) % 8 == 0
+    if deep:
+        valid = [CORNER[(h // 17) % 4], CORNER[(h // 19) % 4]]
+    return {"cell": [kind, hv, list(proc), list(sch), pto, tmc], "deep": deep, "valid": valid, "invalid": inv, "inv_value": (h // 20480) % 3, "y": [0.2, 0.5, 1.0][(h // 7) % 3], "sv": sv}
 
 
 def lattice(tier):
@@ -101,7 +108,8 @@ def cases(draw, tier="quick"):
     # generated kinematics on top of the derived ones
     x = draw(st.sampled_from([1.0, 0.1, 1e-3, GRID[0]]) | st.floats(2e-4, 1.0))
     q2 = draw(st.sampled_from([1.0, 2.2801, 24.2064]) | cards.q2_values(0.3, 1e6))
-    c["valid"] = [c["valid"][0], {"x": x, "Q2": q2}]
+    if not c["deep"]:
+        c["valid"] = [c["valid"][0], {"x": x, "Q2": q2}]
     c["invalid"] = draw(st.sampled_from(INVALID))
     c["inv_value"] = draw(st.integers(0, 2))
     return c
@@ -127,7 +135,8 @@ def build(case, kins):
     kind, hv, (process, proj), (scheme, nfff), pto, tmc = case["cell"]
     ren, fact = case.get("sv", [False, False])
     th = cards.theory(PTO=pto, FNS=scheme, NfFF=nfff, TMC=tmc, RenScaleVar=ren, FactScaleVar=fact)
-    ob = cards.observables(prDIS=process, ProjectileDIS=proj, interpolation_xgrid=list(GRID), interpolation_polynomial_degree=3)
+    deep = case.get("deep") and all(k.get("x") in [c["x"] for c in CORNER] for k in kins)
+    ob = cards.observables(prDIS=process, ProjectileDIS=proj, interpolation_xgrid=list(DEEP if deep else GRID), interpolation_polynomial_degree=3)
     name = f"{kind}_{hv}"
     if kind in configs.XS_KINDS:
         kins = [dict(k, y=case["y"]) for k in kins]
@@ -159,6 +168,8 @@ def check_case(case):
     v.nontrivial = True
     if any(case.get("sv", [False, False])):
         v.label("scale-variations-on")
+    if case.get("deep"):
+        v.label("small-x-high-Q2-corner")
     if True:
         nfs = {cards.nf_ref(cards.theory(FNS=scheme, NfFF=nfff), k["Q2"]) for k in case["valid"] if k["Q2"] > 0}
         if len(nfs) > 1:
